@@ -254,11 +254,24 @@ func (p *printer) expr(e *E, sp string) {
 			sub.toks = sub.toks[:0]
 			sub.expr(part, "")
 			s, _ := Join(sub.toks, nil)
+			// a brace next to the interpolation's own braces would read as a
+			// print delimiter
+			if strings.HasPrefix(s, "{") {
+				s = " " + s
+			}
+			if strings.HasSuffix(s, "}") {
+				s += " "
+			}
 			b.WriteString(s)
 			b.WriteString("}")
 		}
 		b.WriteString("\"")
 		p.tok(b.String(), "str", sp, "")
+	case "mcallx":
+		p.operand(e.A[0], sp)
+		p.tok(".", "punct", "", "")
+		p.tok(e.S, "word", "", "")
+		p.args(e.A[1:])
 	case "mcall":
 		switch e.T {
 		case "self":
